@@ -402,6 +402,28 @@ Proof.
   repeat (destruct H as [H|H]; [subst n; vm_compute; reflexivity|]). contradiction.
 Qed.
 
+(* ---- stability: acquisitions with the same label tuple keep their file order ----------------------------------------- *)
+Definition has_labels (key : list Z) (a : acq) : bool := list_eqb (labels a) key.
+
+Lemma filter_insert_stable key x s :
+  filter (has_labels key) (insert_by acq_leb x s) = if has_labels key x then x :: filter (has_labels key) s else filter (has_labels key) s.
+Proof.
+  induction s as [|y s IH]; cbn [insert_by filter].
+  - reflexivity.
+  - destruct (acq_leb x y) eqn:E.
+    + cbn [filter]. reflexivity.
+    + cbn [filter]. rewrite IH. destruct (has_labels key y) eqn:Py; [|reflexivity].
+      destruct (has_labels key x) eqn:Px; [|reflexivity]. exfalso.
+      unfold has_labels in Px, Py. apply list_eqb_eq in Px, Py.
+      unfold acq_leb, sort_key in E. rewrite Px, Py, lex_leb_refl in E. discriminate.
+Qed.
+
+Lemma isort_stable key l : filter (has_labels key) (isort_by acq_leb l) = filter (has_labels key) l.
+Proof.
+  induction l as [|x l IH]; [reflexivity|]. change (isort_by acq_leb (x :: l)) with (insert_by acq_leb x (isort_by acq_leb l)).
+  rewrite filter_insert_stable, IH. cbn [filter]. reflexivity.
+Qed.
+
 (* ---- the bookkeeping tables agree with what the model computes with ------------------------------------------------- *)
 Module TablesProof.
 Import String.
